@@ -14,7 +14,24 @@ var yieldsAndClock = instr.Opts{Yields: true, Time: true}
 var yieldsOnly = instr.Opts{Yields: true}
 var mainPkg = instr.Opts{Maps: true, Yields: true, Sync: true, Time: true, Access: true, Main: true, MainPkgName: "idmain"}
 
+var lite = instr.Opts{Maps: true, Yields: true, Sync: true, Time: true, Access: true, NoFields: true}
+
 var all = map[string]*runner.Spec{
+	"C09": {
+		ID: "C09", Harness: "c09", Level: "exploration",
+		Rule: "one run = one seeded workload on a frozen shared classifier (full embedded corpus or every 7th document plus a duplicate-text twin; with or without tracing whose Tracer callback is a scheduling point): 1..4 generated inputs, 2..16 caller tasks (sometimes up to 64) each making 1..4 calls of Match or MatchFrom (simulated reader: every Read a scheduling point, some readers fail), twins (two tasks with the same bytes) frequent; executed under one seeded scheduler (random / sticky / PCT, preemption at yield points inside tokenizer, search set and diff code, optional clock stalls). Non-trivial: at least 3 tasks and at least 2 context switches; distinct = distinct hash of the context-switch sequence combined with world and inputs.",
+		Assume: []string{
+			"race-freedom is decided as: no store into memory that existed before the calls (frozen arena, schedule-independent) and no unordered conflicting access to Go maps, package-level variables and captured variables (vector-clock checker); memory allocated by a call is private to it unless published through one of those",
+			"stores into heap maps performed inside uninstrumented third-party code would be invisible (none in the current call graph); the map fingerprint would still see a changed value",
+			"the solo reference is the same call run alone on the same frozen classifier with the run-to-block schedule and a frozen clock",
+		},
+		QuickRuns: 2400, ThorRuns: 60000, QuickCap: 420, ThorCap: 2400,
+		Instrument: func(sc *runner.Scratch) error {
+			gd := lite
+			_, err := sc.Instrument(runner.InstrumentPlan{V2: map[string]instr.Opts{"": lite}, GoDiff: &gd})
+			return err
+		},
+	},
 	"C19": {
 		ID: "C19", Harness: "c19", Level: "exploration",
 		Rule: "one run = one seeded set of 0..12 real files in a temporary directory (licensed, unlicensed, two licenses with copyright lines, scenario files, empty, no trailing newline, CRLF, lines of 70 KB / 1 MB before, inside or after a match; at backend level sometimes a path that does not exist), flags (-headers, -tasks from {1,2,3,n,n+5,1000}, include_text, with/without context, a cancellation at a drawn step in 1 of 10 runs) and one seeded schedule of the worker goroutines, the closer goroutine and the collector. 7 of 8 runs drive the backend API, 1 of 8 runs the whole main() in-process. Non-trivial: at least 3 tasks and at least 2 context switches; distinct = distinct hash of the context-switch sequence combined with files and flags.",
